@@ -266,7 +266,7 @@ def c18_tracks(pi: int, o1: int, o2: int, vel: int, ch: int, bi: int, ntr: int, 
         t.add_bar(_mk_bar(e))
         t.add_bar(_mk_bar(e))
         tracks.append(t)
-    chans = [3, 9, 0][:ntr]
+    chans = list(P.get("chans", [3, 9, 0]))[:ntr]
     s = Rec()
     o = Obs()
     s.attach(o)
@@ -306,6 +306,10 @@ def c18_tracks(pi: int, o1: int, o2: int, vel: int, ch: int, bi: int, ntr: int, 
         exp = instr + e1 + e2
         return r == {"bpm": b2} and _same_events(s.ev, exp) and _same_events(o.ev, exp) and _balanced(s.ev)
     exp = instr + _exp_parallel(ents, bpm) + _exp_parallel(ents, bpm)
+    if P.get("twice"):
+        # the same tracks played again on the same sequencer: announced again, played again
+        r = s.play_Composition(c, chans, bpm) if use_comp else s.play_Tracks(tracks, chans, bpm)
+        exp = exp + exp
     return r == {"bpm": bpm} and _same_events(s.ev, exp) and _same_events(o.ev, exp) and _balanced(s.ev)
 
 
@@ -353,6 +357,8 @@ def claims(tier):
         cl.append(Claim("tracks[instr=%s]" % nm, c18_tracks, params={"instr": nm}, group="c18_tracks", pre=[pre5, lambda bi, ntr: bi == 0 and 1 <= ntr <= 2 and True, lambda pi: pi == 0], timeout=1500 if q else 3000, bounds="play_Tracks, first track's MIDI instrument named %r (program %s)" % (nm, REF_NAMES.index(nm) if nm in REF_NAMES else "1: unknown name")))
     for ta in ((0, 2, 90), (1, 0, 45), (0, 3, 200)):
         cl.append(Claim("tracks[tempo track %d entry %d]" % ta[:2], c18_tracks, params={"tempo_at": ta}, group="c18_tracks", pre=[pre5, lambda bi, ntr: 0 <= bi < 2 and 2 <= ntr <= 3, lambda pi: pi == 0], timeout=1500 if q else 3000, bounds="play_Tracks with 2..3 parallel tracks; a tempo-changing container (bpm %d) at entry %d of track %d (not the last track)" % (ta[2], ta[1], ta[0])))
+    cl.append(Claim("tracks[shared channel]", c18_tracks, params={"chans": [5, 5, 6]}, group="c18_tracks", pre=[pre5, lambda bi, ntr: bi == 0 and 2 <= ntr <= 3, lambda pi: pi == 0], timeout=1500 if q else 3000, bounds="play_Tracks with 2..3 tracks, the first two on the same channel (5, 5, 6): one instrument change per track"))
+    cl.append(Claim("tracks[played twice]", c18_tracks, params={"twice": True}, group="c18_tracks", pre=[pre5, lambda bi, ntr: bi == 0 and 1 <= ntr <= 2, lambda pi: pi == 0], timeout=1500 if q else 3000, bounds="the same 1..2 tracks played twice on one sequencer: the second playback announces and plays everything again"))
     cl.append(Claim("composition", c18_tracks, params={"composition": True}, pre=[pre5, lambda bi, ntr: 0 <= bi < 2 and 1 <= ntr <= 3], timeout=1500 if q else 3000, bounds="play_Composition, as 'tracks'"))
     cl.append(Claim("control_change", c18_control_change, timeout=300, bounds="channel, control number, value: every integer (unbounded, symbolic)"))
     cl.append(Claim("cc_helpers", c18_cc_helpers, timeout=300, bounds="modulation / main_volume / pan: channel and value every integer"))
